@@ -528,6 +528,26 @@ def _fold_constants(tree: ast.AST):
                 return ast.copy_location(ast.Constant(value=not n.operand.value), n)
             return n
 
+        def visit_Compare(self, n):
+            self.generic_visit(n)
+            if len(n.ops) != 1 or not isinstance(n.left, ast.Constant) or not isinstance(n.comparators[0], ast.Constant):
+                return n
+            a, b, op = n.left.value, n.comparators[0].value, n.ops[0]
+            simple = lambda v: v is None or type(v) in (int, float, str, bool)
+            if not (simple(a) and simple(b)):
+                return n
+            if isinstance(op, (ast.Is, ast.IsNot)):
+                if a is not None and b is not None:
+                    return n          # identity of two non-None literals is the implementation's business
+                r = (a is b) if isinstance(op, ast.Is) else (a is not b)
+            elif isinstance(op, (ast.Eq, ast.NotEq)):
+                r = (a == b) if isinstance(op, ast.Eq) else (a != b)
+            elif isinstance(op, (ast.Lt, ast.LtE, ast.Gt, ast.GtE)) and type(a) in (int, float) and type(b) in (int, float):
+                r = {ast.Lt: a < b, ast.LtE: a <= b, ast.Gt: a > b, ast.GtE: a >= b}[type(op)]
+            else:
+                return n
+            return ast.copy_location(ast.Constant(value=bool(r)), n)
+
         def visit_IfExp(self, n):
             self.generic_visit(n)
             if isinstance(n.test, ast.Constant) and isinstance(n.test.value, bool):
@@ -1000,6 +1020,8 @@ def _split_live_ranges(tree: ast.AST):
             if bad:
                 continue
             loads = [n for n in ast.walk(fn) if isinstance(n, ast.Name) and n.id == name and isinstance(n.ctx, ast.Load)]
+            if not loads:
+                continue          # never read: nothing to separate (and the rules report a value that is computed and dropped by its one name)
             owner = {}
             for ld in loads:
                 own = [i for i, reg in enumerate(regions) if id(ld) in reg]
